@@ -634,6 +634,136 @@ fn http_heuristic_is_write(q: &str) -> bool {
                 || u.ends_with(" MERGE")))
 }
 
+
+// =======================================================================================
+// Graph view used for every graph comparison of C19 / C23: the uid-keyed dump (node and
+// relationship *listings*) plus the *adjacency* views — per node the outgoing and incoming
+// relationships as the store's neighbour accessors report them, and (C19) the rows of a
+// directed pattern match in both orientations. A relationship that is listed but missing from
+// an adjacency list (or the reverse) makes two views differ.
+
+#[derive(Clone, Debug, PartialEq, Default)]
+struct View {
+    dump: Dump,
+    /// "out <a> -[T r:… {props}]-> <b>" / "in <b> <-[T r:… {props}]- <a>", sorted
+    adj: Vec<String>,
+    /// rows of MATCH (a)-[r]->(b) and MATCH (b)<-[r]-(a), sorted ("fwd …" / "bwd …")
+    pat: Vec<String>,
+}
+
+fn node_key_in(store: &GraphStore, id: NodeId) -> String {
+    let props = store.node_properties_full(id);
+    match props.get("uid") {
+        Some(v) if !v.is_null() => format!("u:{}", canon(v)),
+        _ => {
+            // same key as dump_by_uid gives a node without uid
+            let mut l: Vec<String> = store.get_node(id).map(|n| n.labels.iter().map(|l| l.as_str().to_string()).collect()).unwrap_or_default();
+            l.sort();
+            let l: Vec<&str> = l.iter().map(|x| x.as_str()).collect();
+            format!("anon:{:?}:{:?}", l, props.iter().map(|(k, v)| (k.clone(), canon(v))).collect::<BTreeMap<String, String>>())
+        }
+    }
+}
+
+fn rid_key(props: &PropertyMap) -> String {
+    match props.get("rid") {
+        Some(v) if !v.is_null() => format!("r:{}", canon(v)),
+        _ => String::new(),
+    }
+}
+
+impl View {
+    fn of_store(g: &GraphStore, with_pattern: bool) -> View {
+        let dump = dump_by_uid(g, "uid", "rid", false);
+        let mut adj = Vec::new();
+        for id in vcheck::dump::live_node_ids(g) {
+            let me = node_key_in(g, id);
+            for e in g.get_outgoing_edges(id) {
+                adj.push(format!("out {} -[{} {} {:?}]-> {}", me, e.edge_type.as_str(), rid_key(&e.properties), canon_props(&e.properties), node_key_in(g, e.target)));
+            }
+            for e in g.get_incoming_edges(id) {
+                adj.push(format!("in {} <-[{} {} {:?}]- {}", me, e.edge_type.as_str(), rid_key(&e.properties), canon_props(&e.properties), node_key_in(g, e.source)));
+            }
+        }
+        adj.sort();
+        let mut pat = Vec::new();
+        if with_pattern {
+            let cell = |r: &samyama::query::Record, c: &str| match r.get(c) {
+                Some(Value::Property(p)) if !p.is_null() => canon(p),
+                _ => "null".to_string(),
+            };
+            for (tag, q) in [("fwd", "MATCH (a)-[r]->(b) RETURN a.uid AS a, type(r) AS t, r.rid AS r, b.uid AS b"), ("bwd", "MATCH (b)<-[r]-(a) RETURN a.uid AS a, type(r) AS t, r.rid AS r, b.uid AS b")] {
+                match QueryEngine::new().execute(q, g) {
+                    Ok(batch) => {
+                        for rec in &batch.records {
+                            pat.push(format!("{tag} u:{} -[{} r:{}]-> u:{}", cell(rec, "a"), cell(rec, "t"), cell(rec, "r"), cell(rec, "b")));
+                        }
+                    }
+                    Err(e) => pat.push(format!("{tag} <pattern match refused: {e}>")),
+                }
+            }
+            pat.sort();
+        }
+        View { dump, adj, pat }
+    }
+
+    /// The view a healthy store with this node / relationship listing has: adjacency and
+    /// pattern rows as they follow from the listing.
+    fn expected_of(dump: Dump, with_pattern: bool) -> View {
+        let mut adj = Vec::new();
+        let mut pat = Vec::new();
+        for e in &dump.edges {
+            adj.push(format!("out {} -[{} {} {:?}]-> {}", e.src, e.ty, e.key, e.props, e.dst));
+            adj.push(format!("in {} <-[{} {} {:?}]- {}", e.dst, e.ty, e.key, e.props, e.src));
+            if with_pattern {
+                let rid = if e.key.is_empty() { "r:null".to_string() } else { e.key.clone() };
+                let ty = canon(&PropertyValue::String(e.ty.clone()));
+                pat.push(format!("fwd {} -[{} {}]-> {}", e.src, ty, rid, e.dst));
+                pat.push(format!("bwd {} -[{} {}]-> {}", e.src, ty, rid, e.dst));
+            }
+        }
+        adj.sort();
+        pat.sort();
+        View { dump, adj, pat }
+    }
+
+    fn diff(&self, other: &View) -> String {
+        let mut s = self.dump.diff(&other.dump);
+        for (name, a, b) in [("adjacency", &self.adj, &other.adj), ("pattern match", &self.pat, &other.pat)] {
+            if a != b {
+                s.push_str(&format!("{name} views differ:\n"));
+                let (mut x, mut y) = (a.clone(), b.clone());
+                // multiset difference
+                let mut i = 0;
+                while i < x.len() {
+                    if let Some(j) = y.iter().position(|l| l == &x[i]) {
+                        y.remove(j);
+                        x.remove(i);
+                    } else {
+                        i += 1;
+                    }
+                }
+                for l in x {
+                    s.push_str(&format!("- {l}\n"));
+                }
+                for l in y {
+                    s.push_str(&format!("+ {l}\n"));
+                }
+            }
+        }
+        s
+    }
+
+    fn has_parallel(&self) -> bool {
+        let mut pairs: Vec<(&String, &String)> = self.dump.edges.iter().map(|e| (&e.src, &e.dst)).collect();
+        pairs.sort();
+        pairs.windows(2).any(|w| w[0] == w[1])
+    }
+    fn has_self_loop(&self) -> bool {
+        self.dump.edges.iter().any(|e| e.src == e.dst)
+    }
+}
+
 // =======================================================================================
 // C23
 
@@ -700,14 +830,14 @@ fn c23_run(rt: &Rt, case: &C23Case, allow_resp_quirk: bool, allow_http_quirk: bo
     // ---- reference: the statement run directly on the engine (QueryEngine::execute_mut,
     // i.e. MutQueryExecutor whatever the planner thinks of the statement)
     let mut ref_store = build_graph(&case.graph);
-    let before = dump_by_uid(&ref_store, "uid", "rid", false);
+    let before = View::of_store(&ref_store, false);
     let schema_before = schema_dump(&ref_store);
     let (ref_r, ref_h): (Out, Out) = catch(|| match QueryEngine::new().execute_mut(q, &mut ref_store, "default") {
         Ok(b) => (out_of_batch(&b, false), out_of_batch(&b, true)),
         Err(e) => (Out::Refused(e.to_string()), Out::Refused(e.to_string())),
     })
     .map_err(|p| format!("QueryEngine::execute_mut panicked: {p}"))?;
-    let ref_after = dump_by_uid(&ref_store, "uid", "rid", false);
+    let ref_after = View::of_store(&ref_store, false);
     let ref_schema = schema_dump(&ref_store);
 
     // ---- the executor the planner's is_write flag selects (what an embedding caller and
@@ -731,7 +861,7 @@ fn c23_run(rt: &Rt, case: &C23Case, allow_resp_quirk: bool, allow_http_quirk: bo
         }
     })
     .map_err(|p| format!("embedded executor panicked: {p}"))?;
-    let emb_after = dump_by_uid(&emb_store, "uid", "rid", false);
+    let emb_after = View::of_store(&emb_store, false);
     let emb_schema = schema_dump(&emb_store);
     let ordered = q.to_uppercase().contains("ORDER");
 
@@ -764,7 +894,7 @@ fn c23_run(rt: &Rt, case: &C23Case, allow_resp_quirk: bool, allow_http_quirk: bo
     };
     let (resp_after, resp_schema) = {
         let g = rt.block_on(resp_store.read());
-        (dump_by_uid(&g, "uid", "rid", false), schema_dump(&g))
+        (View::of_store(&g, false), schema_dump(&g))
     };
     // ---- HTTP
     let http_store: Store = Arc::new(RwLock::new(build_graph(&case.graph)));
@@ -773,7 +903,7 @@ fn c23_run(rt: &Rt, case: &C23Case, allow_resp_quirk: bool, allow_http_quirk: bo
     let http = out_of_http(status, &body);
     let (http_after, http_schema) = {
         let g = rt.block_on(http_store.read());
-        (dump_by_uid(&g, "uid", "rid", false), schema_dump(&g))
+        (View::of_store(&g, false), schema_dump(&g))
     };
 
     let mut quirk_explains = Vec::new();
@@ -1142,9 +1272,9 @@ fn start_server(rt: &Rt, dir: &std::path::Path) -> Result<Server, String> {
 }
 
 impl Server {
-    fn dump(&self, rt: &Rt) -> Dump {
+    fn view(&self, rt: &Rt) -> View {
         let g = rt.block_on(self.store.read());
-        dump_by_uid(&g, "uid", "rid", false)
+        View::of_store(&g, true)
     }
     /// flush what a clean process exit would leave behind, then close RocksDB
     fn shutdown(self) -> Result<(), String> {
@@ -1179,6 +1309,10 @@ struct C19Result {
     /// the failing restart's graph equals the quirk model's prediction
     quirk_equal: bool,
     persisted_entities: usize,
+    parallel_at_restart: bool,
+    self_loop_at_restart: bool,
+    /// some restart served two or more relationships between one ordered node pair
+    parallel_recovered: bool,
     /// graph served before / after each restart, in order
     befores: Vec<Dump>,
     afters: Vec<Dump>,
@@ -1221,19 +1355,51 @@ fn c19_run(case: &C19Case) -> Result<C19Result, String> {
         match op {
             Op::Restart => {
                 res.restarts += 1;
-                let before = srv.dump(&rt);
+                let before = srv.view(&rt);
+                if before.has_parallel() {
+                    res.parallel_at_restart = true;
+                }
+                if before.has_self_loop() {
+                    res.self_loop_at_restart = true;
+                }
                 srv.shutdown()?;
                 drop(rt); // ends the background indexer task of this "process"
                 rt = new_rt();
                 srv = start_server(&rt, &dir)?;
-                let after = srv.dump(&rt);
-                res.befores.push(before.clone());
-                res.afters.push(after.clone());
+                let after = srv.view(&rt);
+                if after.has_parallel() {
+                    res.parallel_recovered = true;
+                }
+                res.befores.push(before.dump.clone());
+                res.afters.push(after.dump.clone());
                 res.acks.push(None);
+                node_ids.clear();
+                edge_ids.clear();
+                refresh_ids(&srv, &rt, &mut node_ids, &mut edge_ids);
+                if after != before && res.strict_fail.is_none() {
+                    let predicted = View::expected_of(disk.predict(), true);
+                    res.quirk_equal = after == predicted;
+                    res.strict_fail = Some(format!(
+                        "restart at step {step}: graph served after restart (listings, adjacency, pattern matches) differs from the graph before shutdown (before → after):\n{}{}",
+                        before.diff(&after),
+                        if res.quirk_equal { String::new() } else { format!("and differs from the quirk model's prediction (predicted → after):\n{}", predicted.diff(&after)) }
+                    ));
+                    if !res.quirk_equal {
+                        return Ok(res);
+                    }
+                } else if after != before {
+                    // later restarts of an already-failing case must still follow the quirk model
+                    let predicted = View::expected_of(disk.predict(), true);
+                    if after != predicted {
+                        res.quirk_equal = false;
+                        res.strict_fail = Some(format!("restart at step {step}: graph after restart differs from before and from the quirk model (predicted → after):\n{}", predicted.diff(&after)));
+                        return Ok(res);
+                    }
+                }
                 // twin of the recovered graph, built through the ordinary creation API from what
                 // the server serves (not through insert_recovered_*, so that the twin's id
-                // allocation is independent of the recovery path under test; ids differ, every
-                // comparison is uid-keyed)
+                // allocation and adjacency are independent of the recovery path under test; ids
+                // differ, every comparison is uid-keyed)
                 twin = {
                     let g = rt.block_on(srv.store.read());
                     let mut t = GraphStore::new();
@@ -1253,39 +1419,16 @@ fn c19_run(case: &C19Case) -> Result<C19Result, String> {
                     }
                     t
                 };
-                if dump_by_uid(&twin, "uid", "rid", false) != after {
+                if View::of_store(&twin, true) != after {
                     res.unjudgeable = Some(format!("twin of the recovered graph could not be rebuilt at step {step}"));
                     return Ok(res);
-                }
-                node_ids.clear();
-                edge_ids.clear();
-                refresh_ids(&srv, &rt, &mut node_ids, &mut edge_ids);
-                if after != before && res.strict_fail.is_none() {
-                    let predicted = disk.predict();
-                    res.quirk_equal = after == predicted;
-                    res.strict_fail = Some(format!(
-                        "restart at step {step}: graph served after restart differs from the graph before shutdown (before → after):\n{}{}",
-                        before.diff(&after),
-                        if res.quirk_equal { String::new() } else { format!("and differs from the quirk model's prediction (predicted → after):\n{}", predicted.diff(&after)) }
-                    ));
-                    if !res.quirk_equal {
-                        return Ok(res);
-                    }
-                } else if after != before {
-                    // later restarts of an already-failing case must still follow the quirk model
-                    let predicted = disk.predict();
-                    if after != predicted {
-                        res.quirk_equal = false;
-                        res.strict_fail = Some(format!("restart at step {step}: graph after restart differs from before and from the quirk model (predicted → after):\n{}", predicted.diff(&after)));
-                        return Ok(res);
-                    }
                 }
                 // from here on the model's disk content is what was actually recovered:
                 // relationships whose endpoints were missing stay on disk but can never load
             }
             Op::Resp(q) | Op::Http(q) => {
                 let is_resp = matches!(op, Op::Resp(_));
-                let pre = srv.dump(&rt);
+                let pre = srv.view(&rt);
                 let acked = if is_resp {
                     let reply = catch(|| resp_query(&rt, &srv.handler, &srv.store, q)).map_err(|p| format!("GRAPH.QUERY panicked at step {step}: {p}"))?;
                     !matches!(reply, RespValue::Error(_))
@@ -1300,8 +1443,8 @@ fn c19_run(case: &C19Case) -> Result<C19Result, String> {
                     }
                 });
                 res.acks.push(Some(acked));
-                let post = srv.dump(&rt);
-                if post.nodes.windows(2).any(|w| w[0].key == w[1].key) || post.nodes.iter().any(|n| n.key.starts_with("anon")) {
+                let post = srv.view(&rt);
+                if post.dump.nodes.windows(2).any(|w| w[0].key == w[1].key) || post.dump.nodes.iter().any(|n| n.key.starts_with("anon")) {
                     res.unjudgeable = Some(format!("generator produced a duplicate or missing uid at step {step}"));
                     return Ok(res);
                 }
@@ -1322,7 +1465,7 @@ fn c19_run(case: &C19Case) -> Result<C19Result, String> {
                         return Ok(res);
                     }
                 };
-                let expected = dump_by_uid(&twin, "uid", "rid", false);
+                let expected = View::of_store(&twin, true);
                 if expected != post {
                     if res.restarts > 0 {
                         // the served graph was rebuilt by recovery; the twin holds the same graph
@@ -1425,17 +1568,18 @@ fn c19_judge(res: &C19Result, q_resp: bool, q_http: bool) -> Result<Option<Vec<&
 }
 
 type C19Ops = Vec<(u8, u16, Vec<u16>)>;
-/// (class selector, nodes created and RETURNed in epoch 1, creations after the restart, free ops)
-type C19Raw = (u8, usize, usize, C19Ops);
+/// (class selector, nodes created and RETURNed in epoch 1, creations after the restart,
+/// (source selector, target selector, type) of the relationships of the "parallel" class, free ops)
+type C19Raw = (u8, usize, usize, Vec<(u8, u8, u8)>, C19Ops);
 
 fn c19_strategy(max_len: usize) -> BoxedStrategy<C19Raw> {
     // kind: 0-5 RESP, 6-8 HTTP, 9 restart
     let ops = prop::collection::vec((prop_oneof![6 => 0u8..6, 3 => 6u8..9, 1 => Just(9u8)], any::<u16>(), prop::collection::vec(any::<u16>(), 12)), 1..=max_len);
-    (0u8..4, 1usize..=6, 1usize..=3, ops).boxed()
+    (0u8..4, 1usize..=6, 1usize..=3, prop::collection::vec((0u8..2, 0u8..3, 0u8..2), 2..=6), ops).boxed()
 }
 
 fn c19_build(raw: &C19Raw) -> C19Case {
-    let (class, m, k, free) = raw;
+    let (class, m, k, pairs, free) = raw;
     let mut ops = Vec::new();
     // uids / rids created by earlier statements of the sequence (assuming they succeeded)
     let mut uids: Vec<(i64, &'static str)> = Vec::new();
@@ -1461,6 +1605,28 @@ fn c19_build(raw: &C19Raw) -> C19Case {
         for _ in 0..*k {
             create(&mut ops);
         }
+        free = &free[..free.len().min(2)];
+    }
+    if *class == 1 {
+        // "parallel relationships" class: 2-3 nodes created with RETURN n, then 2-6
+        // relationships created with RETURN r over RESP between very few ordered pairs
+        // (so parallel relationships and self-loops are the rule) — all persisted; restart;
+        // at most two free operations; final restart.
+        let nn = 2 + (*m % 2);
+        for i in 0..nn {
+            let l = LABELS[i % 3];
+            let uid = 100 * (i as i64 + 1) + 1;
+            ops.push(Op::Resp(format!("CREATE (n:{l} {{uid: {uid}, p: {}}}) RETURN n", i % 4)));
+            uids.push((uid, l));
+        }
+        for (a, b, t) in pairs {
+            let src = *a as usize % nn;
+            let dst = if *b == 0 { src } else { (src + 1) % nn };
+            let rid = 2001 + ops.len() as i64;
+            ops.push(Op::Resp(format!("MATCH (a), (b) WHERE a.uid = {} AND b.uid = {} CREATE (a)-[r:{} {{rid: {rid}}}]->(b) RETURN r", uids[src].0, uids[dst].0, TYPES[*t as usize % 2])));
+            rids.push(rid);
+        }
+        ops.push(Op::Restart);
         free = &free[..free.len().min(2)];
     }
     for (kind, tsel, sels) in free.iter() {
@@ -1494,7 +1660,7 @@ fn c19(args: &Args) {
     let mut ev = Evidence::new(
         args,
         "exploration",
-        "sequences (1-10) of write statements (38 templates, incl. clause pipelines; a quarter of the cases start with the 'contiguous ids' class: 1-6 CREATE (n) RETURN n over RESP so that persisted ids are exactly 1..m, restart, 1-3 further CREATE (n) RETURN n, restart; CREATE node / pattern with and without RETURN of scalars or entities, SET, REMOVE, label add/remove, DELETE / DETACH DELETE, MERGE with ON CREATE / ON MATCH, UNWIND / WITH / FOREACH forms, DDL) sent through CommandHandler::handle_command (with a PersistenceManager) or through the HTTP router (with data_path) on one shared store, interleaved with restarts; restart = drop every handle (RocksDB closed), reopen the same directory through an in-process replica of main.rs's recovery sequence (list tenants → recover → insert_recovered_node/edge, else restore_persisted_snapshots). Oracle: uid-keyed dump served after each restart == dump before shutdown; and after every statement acknowledged after a restart, the served graph == the previously served graph plus the statement's effect as the engine computes it on an identical graph built without the recovery path (so a node that vanishes or is replaced by a post-restart CREATE is flagged; never suppressed by a known finding). Non-trivial = at least one acknowledged statement changed the graph; distinct = distinct op sequences.",
+        "sequences (1-10) of write statements (38 templates, incl. clause pipelines; a quarter of the cases start with the 'parallel relationships' class: 2-3 nodes RETURNed, 2-6 MATCH (a),(b) CREATE (a)-[r]->(b) RETURN r between very few ordered pairs incl. self-loops, restart; another quarter with the 'contiguous ids' class: 1-6 CREATE (n) RETURN n over RESP so that persisted ids are exactly 1..m, restart, 1-3 further CREATE (n) RETURN n, restart; CREATE node / pattern with and without RETURN of scalars or entities, SET, REMOVE, label add/remove, DELETE / DETACH DELETE, MERGE with ON CREATE / ON MATCH, UNWIND / WITH / FOREACH forms, DDL) sent through CommandHandler::handle_command (with a PersistenceManager) or through the HTTP router (with data_path) on one shared store, interleaved with restarts; restart = drop every handle (RocksDB closed), reopen the same directory through an in-process replica of main.rs's recovery sequence (list tenants → recover → insert_recovered_node/edge, else restore_persisted_snapshots). Oracle: graph view (uid-keyed node / relationship listings + per-node outgoing and incoming adjacency from the store's neighbour accessors + rows of MATCH (a)-[r]->(b) and MATCH (b)<-[r]-(a)) served after each restart == view before shutdown; and after every statement acknowledged after a restart, the served graph == the previously served graph plus the statement's effect as the engine computes it on an identical graph built without the recovery path (so a node that vanishes or is replaced by a post-restart CREATE is flagged; never suppressed by a known finding). Non-trivial = at least one acknowledged statement changed the graph; distinct = distinct op sequences.",
     );
     if args.tier == Tier::Quick {
         ev.assume("restart is the in-process replica of main.rs's recovery sequence, not the real binary (the thorough tier also kills and restarts the real binary and checks that the replica serves the same graphs)");
@@ -1589,6 +1755,15 @@ fn c19(args: &Args) {
         }
         if contiguous_class(case) {
             ev.class("contiguous_persisted_ids_then_restart_then_create");
+        }
+        if res.parallel_at_restart {
+            ev.class("restart_with_parallel_relationships");
+        }
+        if res.self_loop_at_restart {
+            ev.class("restart_with_self_loop");
+        }
+        if res.parallel_recovered {
+            ev.class("parallel_relationships_recovered_from_disk");
         }
         if res.persisted_entities > 0 {
             ev.class("model_predicts_persisted_entities");
